@@ -50,16 +50,16 @@ type Ev struct {
 
 // Line is one ndjson record for SSOTrace.tla (all fields always present).
 type Line struct {
-	Ev     string `json:"ev"`
-	Case   int    `json:"case"`
-	B      string `json:"b"`
-	URL    AUrl   `json:"url"`  // lure: the URL used
-	Next   AUrl   `json:"next"` // fetch: where the browser is sent next (abstract)
-	PSess  string `json:"psess"`
-	ASess  string `json:"asess"`
-	Served string `json:"served"` // identity the upstream received with this fetch ("none" = not reached)
-	Status int    `json:"status"`
-	Note   string `json:"note"`
+	Ev     string      `json:"ev"`
+	Case   int         `json:"case"`
+	B      string      `json:"b"`
+	URL    AUrl        `json:"url"`  // lure: the URL used
+	Next   AUrl        `json:"next"` // fetch: where the browser is sent next (abstract)
+	PSess  string      `json:"psess"`
+	ASess  string      `json:"asess"`
+	Served string      `json:"served"` // identity the upstream received with this fetch ("none" = not reached)
+	Status int         `json:"status"`
+	Note   string      `json:"note"`
 	Conc   interface{} `json:"conc,omitempty"`
 }
 
